@@ -32,12 +32,23 @@ Fixpoint all_same (l : list mty) : bool :=
   | x :: ((y :: _) as r) => mty_eqb x y && all_same r
   end.
 
+(* the inner product is as secret as the more secret of the two element types (C03) and keeps the
+   receiver's base type *)
+Definition is_secret_ty (t : mty) : bool :=
+  match t with TyName s => smem s ["SecretInteger"; "SecretUnsignedInteger"; "SecretBoolean"] | _ => false end.
+Definition inner_result (ea eb : mty) : mty :=
+  if is_secret_ty ea || negb (is_secret_ty eb) then ea
+  else match ea with
+       | TyName s => TyName ("Secret" ++ s)
+       | t => t
+       end.
+
 Definition coll_spec (c : ccase) : expect :=
   match c with
   | CZip ea eb n m => if Z.eqb n m then Accept (TyArray (TyTuple ea eb) (Some n)) None else MustReject
   | CInner ea eb n m =>
       if negb (Z.eqb n m) then MustReject
-      else if is_integer_ty ea && is_integer_ty eb then Accept ea None else MustReject
+      else if is_integer_ty ea && is_integer_ty eb then Accept (inner_result ea eb) None else MustReject
   | CNew tys =>
       match tys with
       | [] => MustReject
